@@ -49,7 +49,8 @@ def run_scenario(scenario, args, timeout=120):
 
 def replay(pid, cand, cexdir):
     rp = cand.get("replay")
-    path = os.path.join(cexdir, f"{pid}-{cand['name'].replace(':', '_').replace('/', '_')}.json")
+    import re as _re
+    path = os.path.join(cexdir, f"{pid}-" + _re.sub(r"[^A-Za-z0-9._+=-]", "_", cand["name"])[:150] + ".json")
     rec = {"property": pid, "obligation": cand["name"], "model": cand.get("model"), "replay": rp}
     if not rp:
         rec["result"] = "no native scenario for this model (not replayable)"
